@@ -24,6 +24,134 @@ def _expr(src, names, cast):
         else: raise ExtractError(f'unexpected identifier `{t}` in expression `{src}`')
     return ' '.join(out)
 
+# ---------------------------------------------------------------------------------------------------------------------
+# src/Alloc.c: which allocation / deletion entry point tells the collector what (extension round).
+# alloc_by and del_by are read statement by statement: the two allocator branches of alloc_by (the type's own Alloc instance /
+# the default calloc path) as lists of assigned variables and called functions, the `switch (method)` of both functions as
+# (case label, collector actions) rows — fall-through labels share the actions that follow —, the statements after the switch,
+# and the one-line wrappers alloc / alloc_raw / alloc_root / del / del_raw / del_root / new_with / new_raw_with / new_root_with
+# / the default path of copy as (entry point, callee) rows.  `#if CELLO_MEMORY_CHECK == 1 … #endif` blocks are dropped (the
+# out-of-memory throw); `#ifndef CELLO_NGC` / `#endif` lines are dropped (the collector is compiled in).
+
+def _drop_pp(body):
+    body = re.sub(r'#if\s+CELLO_MEMORY_CHECK\s*==\s*1.*?#endif', ' ', body, flags=re.S)
+    if re.search(r'#\s*(if|ifdef|else|elif)\b(?!ndef)', body): raise ExtractError('alloc_by / del_by: unexpected preprocessor conditional')
+    return re.sub(r'#\s*(ifndef\s+CELLO_NGC|endif)\b', ' ', body)
+
+def _stmts(text):
+    return [re.sub(r'\s+', ' ', x.strip()) for x in text.split(';') if x.strip()]
+
+_CALL = re.compile(r'([A-Za-z_][\w]*(?:->\w+)?)\s*\(')
+def _branch(text, what):
+    assigns = []; calls = []
+    for st in _stmts(text):
+        if re.search(r'\b(return|goto|switch|if|while|for)\b', st): raise ExtractError(f'alloc_by: control flow inside the {what} allocator branch: `{st}`')
+        m = re.match(r'(?:struct\s+\w+\s*\*\s*|var\s+)?(\w+)\s*=(?!=)\s*(.*)$', st)
+        if not m: raise ExtractError(f'alloc_by: {what} allocator branch: expected an assignment, found `{st}`')
+        assigns.append(m.group(1))
+        calls += [c for c in _CALL.findall(m.group(2)) if c != 'sizeof']
+    return assigns, calls
+
+def _switch(body, fn):
+    m = re.search(r'switch\s*\(\s*method\s*\)\s*\{', body)
+    if not m: raise ExtractError(f'{fn}: `switch (method) {{` not found')
+    end = balanced(body, m.end() - 1, '{', '}')
+    inner = body[m.end():end - 1]
+    rows = []; labels = []; acts = []
+    pos = 0
+    tok = re.compile(r'\s*(?:case\s+(\w+)\s*:|(default)\s*:|([^;{}]+);)')
+    while pos < len(inner):
+        if not inner[pos:].strip(): break
+        t = tok.match(inner, pos)
+        if not t: raise ExtractError(f'{fn}: cannot read the switch at `{inner[pos:pos+30].strip()}`')
+        pos = t.end()
+        if t.group(1) or t.group(2):
+            if acts: raise ExtractError(f'{fn}: case label after statements without `break` (fall-through with actions)')
+            labels.append(t.group(1) or 'default')
+            continue
+        st = re.sub(r'\s+', ' ', t.group(3).strip())
+        if st == 'break':
+            if not labels: raise ExtractError(f'{fn}: `break` outside a case')
+            rows += [(l, list(acts)) for l in labels]; labels = []; acts = []
+            continue
+        if not labels: raise ExtractError(f'{fn}: statement outside a case: `{st}`')
+        mm = re.fullmatch(r'set\(current\(GC\), self, \$I\((\d+)\)\)', st)
+        if mm: acts.append(f'.set {mm.group(1)}'); continue
+        if st == 'rem(current(GC), self)': acts.append('.rem'); continue
+        if st == 'return': acts.append('.ret'); continue
+        raise ExtractError(f'{fn}: unexpected statement in the switch: `{st}`')
+    if labels or acts: raise ExtractError(f'{fn}: last case of the switch has no `break`')
+    return rows, body[:m.start()], body[end:]
+
+def _wrapper(asrc, name, pat, what):
+    b = re.sub(r'\s+', ' ', func_body(asrc, name).strip())
+    m = re.fullmatch(pat, b)
+    if not m: raise ExtractError(f'{name}: expected `{what}`, found `{b}`')
+    return m.group(1)
+
+def alloc_routes(repo):
+    asrc = read(f'{repo}/src/Alloc.c')
+    m = re.search(r'enum\s*\{\s*(ALLOC_\w+(?:\s*,\s*ALLOC_\w+)*)\s*,?\s*\}', asrc)
+    if not m: raise ExtractError('Alloc.c: enum { ALLOC_… } not found')
+    methods = [x.strip() for x in m.group(1).split(',') if x.strip()]
+    ab = _drop_pp(func_body(asrc, 'alloc_by'))
+    rows, before, after = _switch(ab, 'alloc_by')
+    m = re.fullmatch(r'\s*struct\s+Alloc\s*\*\s*a\s*=\s*type_instance\(type,\s*Alloc\)\s*;\s*var\s+self\s*;\s*if\s*\(\s*a\s+and\s+a->alloc\s*\)\s*\{(.*?)\}\s*else\s*\{(.*)\}\s*', before, re.S)
+    if not m: raise ExtractError('alloc_by: expected `struct Alloc* a = type_instance(type, Alloc); var self; if (a and a->alloc) { … } else { … }` before the switch')
+    own = _branch(m.group(1), 'own'); dflt = _branch(m.group(2), 'default')
+    aafter = _stmts(after)
+    db = _drop_pp(func_body(asrc, 'del_by'))
+    drows, dbefore, dafter = _switch(db, 'del_by')
+    if dbefore.strip(): raise ExtractError(f'del_by: statements before the switch: `{dbefore.strip()}`')
+    dafter = _stmts(dafter)
+    entries = []
+    for f in ('alloc', 'alloc_raw', 'alloc_root'):
+        entries.append((f, 'alloc_by', _wrapper(asrc, f, r'return alloc_by\(type, (\w+)\);', 'return alloc_by(type, ALLOC_…);')))
+    for f in ('del', 'del_raw', 'del_root'):
+        entries.append((f, 'del_by', _wrapper(asrc, f, r'del_by\(self, (\w+)\);', 'del_by(self, ALLOC_…);')))
+    for f in ('new_with', 'new_raw_with', 'new_root_with'):
+        entries.append((f, 'construct_with', _wrapper(asrc, f, r'return construct_with\((\w+)\(type\), args\);', 'return construct_with(alloc…(type), args);')))
+    cb = re.sub(r'\s+', ' ', func_body(asrc, 'copy').strip())
+    m = re.fullmatch(r'struct Copy\* c = instance\(self, Copy\); if \(c and c->copy\) \{ return c->copy\(self\); \} return assign\((\w+)\(type_of\(self\)\), self\);', cb)
+    if not m: raise ExtractError('copy: expected the default path `return assign(alloc…(type_of(self)), self);`')
+    entries.append(('copy', 'assign', m.group(1)))
+    sw = lambda rows: '[' + ', '.join('(' + lean_str(l) + ', [' + ', '.join(a) + '])' for l, a in rows) + ']'
+    sl = lambda xs: lean_list([lean_str(x) for x in xs])
+    return f"""
+/-! ### src/Alloc.c: which entry point tells the collector what -/
+
+/-- what a case of `switch (method)` in alloc_by / del_by does to the collector: `set(current(GC), self, $I(flag))`,
+    `rem(current(GC), self)`, `return` -/
+inductive GcAct where
+  | set (flag : Nat)
+  | rem
+  | ret
+deriving DecidableEq, Repr
+
+/-- `enum {{ ALLOC_… }}` -/
+def allocMethods : List String := {sl(methods)}
+
+/-- the two allocator branches of alloc_by — `if (a and a->alloc)` (the type's own Alloc instance) / else (calloc +
+    header_init) —: variables assigned, functions called -/
+def allocOwnAssigns : List String := {sl(own[0])}
+def allocOwnCalls : List String := {sl(own[1])}
+def allocDefaultAssigns : List String := {sl(dflt[0])}
+def allocDefaultCalls : List String := {sl(dflt[1])}
+
+/-- `switch (method)` of alloc_by: (case label, actions up to its `break`) -/
+def allocSwitch : List (String × List GcAct) := {sw(rows)}
+/-- statements of alloc_by after the switch -/
+def allocAfter : List String := {sl(aafter)}
+
+/-- `switch (method)` of del_by -/
+def delSwitch : List (String × List GcAct) := {sw(drows)}
+/-- statements of del_by after the switch (reached when no case returned) -/
+def delAfter : List String := {sl(dafter)}
+
+/-- the one-line entry points: (function, what it wraps, method constant / allocation function it passes) -/
+def allocEntries : List (String × String × String) := [{', '.join('(' + lean_str(a) + ', ' + lean_str(b) + ', ' + lean_str(c) + ')' for a, b, c in entries)}]
+"""
+
 def gen_reg(repo):
     src = read(f'{repo}/src/GC.c')
     # --- prime table
@@ -152,6 +280,16 @@ def gen_reg(repo):
     m = re.search(r'struct\s+GCEntry\s*\{([^}]*)\}', src)
     if not m: raise ExtractError('struct GCEntry not found')
     fields = [re.sub(r'\s+', ' ', f.strip()) for f in m.group(1).split(';') if f.strip()]
+    routes = alloc_routes(repo)
+    # --- GC_New: the fields it sets on the zeroed object (the model's `Reg.init` is built from them: `regInitFrom`)
+    nb = func_body(src, 'GC_New')
+    newinit = [(a, re.sub(r'\s+', ' ', b.strip())) for a, b in re.findall(r'gc->(\w+)\s*=(?!=)\s*([^;]+);', nb)]
+    if not newinit: raise ExtractError('GC_New: no `gc->field = value;` statement found')
+    if re.search(r'\b(if|while|for|return)\b', nb): raise ExtractError('GC_New: control flow (the model has straight-line initialisation)')
+    routes += f'''
+/-- GC_New: `gc->field = value;` statements, in order (everything else is zero: objects are calloc'ed) -/
+def gcNewInit : List (String × String) := [{', '.join('(' + lean_str(a) + ', ' + lean_str(b) + ')' for a, b in newinit)}]
+'''
     return HEADER + f"""namespace CelloGen.Reg
 
 /-- `GC_Primes[]` (src/GC.c) -/
@@ -192,7 +330,7 @@ def gcDelUnmarksFirst : Bool := {'true' if del_unmarks else 'false'}
 
 /-- fields of `struct GCEntry` -/
 def gcEntryFields : List String := {lean_list([lean_str(f) for f in fields])}
-
+{routes}
 end CelloGen.Reg
 """
 
